@@ -6,7 +6,8 @@
 From Coq Require Import ZArith List String Ascii Bool.
 From Model Require Import PyBase Graph PeriodicTable Stereo Writer.
 From Gen Require Import Elements SmilesTables.
-From Proofs Require Import WriterProofs WriterProofsAtom WriterProofsTokens.
+From Coq Require Import Permutation.
+From Proofs Require Import WriterProofs WriterProofsAtom WriterProofsTokens WriterProofsStream WriterProofsClosures.
 Import ListNotations.
 Open Scope Z_scope.
 
@@ -142,3 +143,78 @@ Theorem C02_tokens_roundtrip_example :
   tokenize "C(=O)[O-].c1cc[nH]c1%12/C=C\Cl" = Ok (map rt_of ts).
 Proof. exact tokens_roundtrip_example. Qed.
 Print Assumptions C02_tokens_roundtrip_example.
+
+(* ---- layer 2b: the writer's list of strings against the token stream (verified checker, evaluated by the check on
+   every output of the model) ---- *)
+
+(* whenever the checker recognises the list of strings the writer produced (wtoks_of) and the side condition holds,
+   the text is tokenized into exactly these tokens, for every molecule, weight function, tie-break and option set *)
+Theorem C02_writer_text_tokenizes : forall g w tb o tabs out order ts,
+  smiles_tokens g w tb o tabs = Ok (Some (out, order)) -> wtoks_of out = Some ts -> wtoks_ok false ts = true ->
+  tokenize (spell out) = Ok (map rt_of ts) /\
+  (format_cxsmiles g order = None \/ o_cx o = false -> smiles_text g w tb o tabs = Ok (spell out, order)).
+Proof. exact writer_text_tokenizes. Qed.
+Print Assumptions C02_writer_text_tokenizes.
+
+Theorem C02_stream_example :
+  match smiles_tokens ex_mol (fun n => n) (fun n => n) default_opts no_stabs with
+  | Ok (Some (out, order)) => stream_ok out = true /\ spell out = "[nH]1cccc1.[Na+]"%string
+  | _ => False
+  end.
+Proof. exact stream_example. Qed.
+Print Assumptions C02_stream_example.
+
+(* ---- layer 3: ring-closure numbers (heap with delayed release) ---- *)
+
+(* one atom: for ANY state satisfying the invariant and ANY closure list in which no cycle appears twice and every cycle
+   is either open or new: open cycles keep their numbers; the numbers of all cycles that are open somewhere at this atom
+   (open before it, ending at it, or starting at it) are pairwise different; the invariant holds again after the delayed
+   release.  [good] is any property of the numbers of the initial heap. *)
+Theorem C02_closure_numbers_atom : forall (good : Z -> Prop) cl casted heap open seen casted' heap' rel,
+  Inv good casted heap open seen -> NoDup open ->
+  NoDup (map snd cl) -> (forall c, In c (map snd cl) -> In c open \/ ~ In c seen) ->
+  number_closures cl casted heap [] = Ok (casted', heap', rel) ->
+  let cs := map snd cl in
+  (forall c, In c open -> cnum casted' c = cnum casted c) /\
+  NoDup (map (cnum casted') (open ++ opening seen cs)) /\
+  Inv good casted' (fold_left (fun h c => heap_push c h) rel heap') (open_after open seen cs) (seen ++ opening seen cs) /\
+  NoDup (open_after open seen cs).
+Proof. exact atom_no_clash. Qed.
+Print Assumptions C02_closure_numbers_atom.
+
+(* all atoms of a component, any number of atoms and cycles: the invariant is preserved by number_atoms, so the atom theorem
+   applies at every atom of the run; cycles that were open at the start keep their numbers to the end *)
+Theorem C02_closure_numbers_consistent : forall (good : Z -> Prop) tokens ro todo casted heap open seen casted' heap',
+  Inv good casted heap open seen -> NoDup open ->
+  wf_events open seen (map (fun a => map snd (atom_closures tokens ro (fst a))) todo) ->
+  number_atoms tokens ro todo casted heap = Ok (casted', heap') ->
+  exists open' seen', Inv good casted' heap' open' seen' /\ NoDup open' /\
+                      (forall c, In c open -> cnum casted' c = cnum casted c).
+Proof. exact closure_numbers_consistent. Qed.
+Print Assumptions C02_closure_numbers_consistent.
+
+(* from the initial state (heap = range(1, 100), nothing numbered): every number is one of 1..99, hence read back
+   as itself (C02_closure_roundtrip) *)
+Theorem C02_closure_numbers_in_range : forall tokens ro todo casted' heap',
+  wf_events [] [] (map (fun a => map snd (atom_closures tokens ro (fst a))) todo) ->
+  number_atoms tokens ro todo [] (zrange heap_lo heap_hi) = Ok (casted', heap') ->
+  forall c k, zget casted' c = Some k -> heap_lo <= k < heap_hi.
+Proof. exact closure_numbers_in_range. Qed.
+Print Assumptions C02_closure_numbers_in_range.
+
+Theorem C02_initial_inv : Inv closure_number_ok [] (zrange heap_lo heap_hi) [] [].
+Proof. exact initial_inv. Qed.
+Print Assumptions C02_initial_inv.
+
+(* the hypothesis on the closure lists is decidable; the check evaluates it on the model's runs *)
+Theorem C02_wf_events_decidable : forall evs open seen, wf_events_b open seen evs = true -> wf_events open seen evs.
+Proof. exact wf_events_b_sound. Qed.
+Print Assumptions C02_wf_events_decidable.
+
+(* non-vacuity: a spiro atom where cycle 1 ends and cycle 2 starts: cycle 2 gets number 2 although 1 is being released *)
+Theorem C02_delayed_release_example :
+  number_atoms [(1, [(3, 1)]); (3, [(1, 1); (5, 2)]); (5, [(3, 2)])] [(1, 0); (3, 2); (5, 4)] [(1, 0); (3, 2); (5, 4)] []
+               (zrange heap_lo heap_hi) = Ok ([(1, 1); (2, 2)], zrange heap_lo heap_hi) /\
+  wf_events [] [] [[1]; [1; 2]; [2]].
+Proof. exact delayed_release_example. Qed.
+Print Assumptions C02_delayed_release_example.
